@@ -530,15 +530,8 @@ impl<B> Call<RecvResponse, B> {
             return Ok(Some((input_used, response)));
         }
 
-        let header_lookup = |name: &str| {
-            if let Some(header) = response.headers().get(name) {
-                return header.to_str().ok();
-            }
-            None
-        };
-
         let recv_body_mode =
-            BodyReader::for_response(http10, self.request.method(), status, &header_lookup)?;
+            BodyReader::for_response(http10, self.request.method(), status, response.headers())?;
 
         self.state.reader = Some(recv_body_mode);
 
